@@ -21,6 +21,7 @@ from buidl.op import (
     op_equal,
     op_hash160,
     op_verify,
+    MAX_SCRIPT_ELEMENT_SIZE,
     OP_CODE_FUNCTIONS,
     OP_CODE_NAMES,
     TAPROOT_OP_CODE_FUNCTIONS,
@@ -199,6 +200,10 @@ class Script:
                         print("bad op: {}".format(OP_CODE_NAMES[command]))
                         return False
             else:
+                # elements of more than 520 bytes fail the script
+                if len(command) > MAX_SCRIPT_ELEMENT_SIZE:
+                    print(f"element too long: {len(command)} bytes")
+                    return False
                 # add the command to the stack
                 stack.append(command)
                 # p2sh rule. if the next three commands are:
